@@ -9,6 +9,7 @@ import CaddyModel.C18.Lemmas
 import CaddyModel.C18.CostLemmas
 import CaddyModel.C18.Http
 import CaddyModel.C18.Preserve
+import CaddyModel.C18.Rewrite
 import CaddyModel.Gen.Consts
 
 namespace CaddyModel.C18
@@ -166,6 +167,120 @@ theorem vars_matcher_compares_verbatim (key mv : Bytes) (r : HttpReq) (b : Bool)
 theorem vars_regexp_old_code_rescans :
     ∃ (key : Bytes) (r : HttpReq), varsRegexpCapturedOld key r ≠ some (varValue key r) :=
   ⟨str "{http.request.header.X-In}", ⟨str "{env.VERIF_C18_SECRET}", [], [47], str "S3CR3T", []⟩, by decide⟩
+
+
+/-! ### the rewrite handler (glue that consumes the replacer) -/
+
+theorem indexOf_split (c : UInt8) : ∀ (s : Bytes) (k : Nat), indexOf c s = some k → s = s.take k ++ c :: s.drop (k + 1)
+  | [], k, h => by simp [indexOf] at h
+  | x :: xs, k, h => by
+    unfold indexOf at h
+    split at h
+    · rename_i hx; cases h; simp [hx]
+    · cases hh : indexOf c xs with
+      | none => simp [hh] at h
+      | some j =>
+        simp [hh] at h
+        subst h
+        have := indexOf_split c xs j hh
+        simp
+        exact this
+
+/-- `strings.Cut` only cuts: the two halves and the separator are the text it was given -/
+theorem cutAt_eq (c : UInt8) (s b a : Bytes) (h : cutAt c s = some (b, a)) : s = b ++ c :: a := by
+  unfold cutAt at h
+  cases hh : indexOf c s with
+  | none => simp [hh] at h
+  | some k =>
+    simp [hh] at h
+    obtain ⟨rfl, rfl⟩ := h
+    exact indexOf_split c s k hh
+
+/-- **the rewrite handler expands its URI template once.** For a template whose query part is empty (the
+    documented `{path}?` idiom and every relative of it), whatever the request's path and query contain:
+    the path template is expanded ONE time (`np`, by `single_pass` a single left-to-right cut of the
+    TEMPLATE), and the new `RawQuery` is literally the text of `np` behind its first `?` — it is not given
+    to the replacer again. Text that came from the request cannot be evaluated. -/
+theorem rewrite_injected_query_verbatim (uri : Bytes) (r : RwReq) (o : RwOut)
+    (hQ : (splitURI uri).hasQ = true) (hq : (splitURI uri).query = [])
+    (h : rewriteURI true uri r = some o) :
+    ∃ np, rwNewPath (splitURI uri).path r = .ok np ∧
+      o.rawQuery = (match cutAt 63 np with | some (_, a) => a | none => []) := by
+  unfold rewriteURI at h
+  cases hp : rwNewPath (splitURI uri).path r <;> simp [hp] at h
+  rename_i np
+  refine ⟨np, rfl, ?_⟩
+  simp only [rwNewQuery, hq, hQ] at h
+  cases hc : cutAt 63 np with
+  | none =>
+    simp [hc] at h
+    split at h <;> simp at h
+    rename_i h1 _
+    cases h1
+    obtain ⟨-, rfl⟩ := h; rfl
+  | some ba =>
+    obtain ⟨b, a⟩ := ba
+    simp [hc] at h
+    split at h <;> simp at h
+    rename_i h1 _
+    cases h1
+    obtain ⟨-, rfl⟩ := h; rfl
+
+/-- … and so the new path (still escaped) and the new query, put together again, ARE that one expansion -/
+theorem rewrite_path_and_query_are_one_expansion (uri : Bytes) (r : RwReq) (o : RwOut)
+    (hQ : (splitURI uri).hasQ = true) (hq : (splitURI uri).query = [])
+    (h : rewriteURI true uri r = some o) :
+    ∃ np, rwNewPath (splitURI uri).path r = .ok np ∧
+      ∀ b a, cutAt 63 np = some (b, a) → np = b ++ 63 :: o.rawQuery := by
+  obtain ⟨np, h1, h2⟩ := rewrite_injected_query_verbatim uri r o hQ hq h
+  refine ⟨np, h1, fun b a hc => ?_⟩
+  rw [hc] at h2
+  rw [h2]
+  exact cutAt_eq 63 np b a hc
+
+/-- the statement is not vacuous: the code as it was before the fix gave the injected query to
+    `buildQueryString` — `{uri}?` on `GET /a?q={env.VERIF_C18_SECRET}` put the secret into the query -/
+theorem rewrite_old_code_reexpands :
+    rewriteURI false (str "{http.request.uri}?") ⟨str "/a", str "q={env.VERIF_C18_SECRET}", str "S3CR3T"⟩
+      = some ⟨str "/a", str "q=S3CR3T", []⟩ ∧
+    rewriteURI true (str "{http.request.uri}?") ⟨str "/a", str "q={env.VERIF_C18_SECRET}", str "S3CR3T"⟩
+      = some ⟨str "/a", str "q={env.VERIF_C18_SECRET}", []⟩ := by
+  set_option maxRecDepth 100000 in decide
+
+-- non-vacuity of the hypotheses: the `{file}?` idiom on a path whose last element carries an encoded `?`
+set_option maxRecDepth 100000 in
+example : (splitURI (str "/files/{http.request.uri.path.file}?")).hasQ = true ∧
+    (splitURI (str "/files/{http.request.uri.path.file}?")).query = [] ∧
+    rewriteURI true (str "/files/{http.request.uri.path.file}?") ⟨str "/x/a?q={env.VERIF_C18_SECRET}", [], str "S3CR3T"⟩
+      = some ⟨str "/files/a", str "q={env.VERIF_C18_SECRET}", []⟩ := by decide
+
+theorem hexDigits_alnum (b : UInt8) : isAlnum (hexDigit (b >>> 4)) = true ∧ isAlnum (hexDigit (b &&& 15)) = true := by
+  have h : ∀ n : Fin 256, isAlnum (hexDigit ((UInt8.ofNat n.val) >>> 4)) = true ∧
+      isAlnum (hexDigit ((UInt8.ofNat n.val) &&& 15)) = true := by
+    set_option maxRecDepth 100000 in decide
+  simpa using h ⟨b.toNat, b.toNat_lt⟩
+
+/-- **values substituted into a configured query are inert.** `buildQueryString` writes every substituted
+    value through `url.QueryEscape`, whose output consists of letters, digits, `-_.~`, `%` and `+` only: no
+    brace, `&`, `=`, `#` or `?` — a request value can neither add a parameter nor look like a placeholder. -/
+theorem query_values_are_escaped (v : Bytes) :
+    ∀ b ∈ queryEscape v, isAlnum b = true ∨ isMark b = true ∨ b = 37 ∨ b = 43 := by
+  intro b hb
+  unfold queryEscape at hb
+  rw [List.mem_flatMap] at hb
+  obtain ⟨x, -, hx⟩ := hb
+  split at hx
+  · simp at hx; exact Or.inr (Or.inr (Or.inr hx))
+  · split at hx
+    · rename_i h; simp at hx; subst hx
+      rcases Bool.or_eq_true _ _ |>.mp h with h | h
+      · exact Or.inl h
+      · exact Or.inr (Or.inl h)
+    · simp [pctEncode] at hx
+      rcases hx with rfl | rfl | rfl
+      · exact Or.inr (Or.inr (Or.inl rfl))
+      · exact Or.inl (hexDigits_alnum x).1
+      · exact Or.inl (hexDigits_alnum x).2
 
 /-- **regenerated tie.** The model's "give up after more than 100 unclosed placeholders" is the
     constant the extractor reads out of replacer.go on every run (`Gen/Consts.lean`). -/
